@@ -26,6 +26,13 @@ HASH_HEAVY = [
     ("Div", "struct S(u8, u16, u32, u64, i8, i16, i32, i64, usize, isize, u128, i128);"),
     ("MulAssign", "struct S { a: u8, b: u16, c: u32, d: u64, e: i8, f: i16, g: i32, h: i64, i: f32, j: f64 }"),
     ("ShlAssign", "struct S<T, U>(T, U, Vec<T>, Option<U>, u8, T, Box<U>, i32);"),
+    # many distinct bounds per impl: formatting derives on generic items, with enum-level / variant-level / field-level formats
+    ("Display", '#[display("<{_variant}>")] enum E<A, B, C, D, F> { #[display("{_0} {_1:?} {_2:x} {_3:e}")] V(A, B, C, D), #[display("{a}{b:?}{c:o}")] W { a: A, b: B, c: C }, X(F) }'),
+    ("UpperHex", '#[upper_hex("[{_variant}] {}", 1)] enum E<A, B, C, D> { #[upper_hex("{_0:X} {_1:X} {_2:?} {_3}")] V(A, B, C, D), W(A), #[upper_hex("{x:X}{y:b}")] Z { x: B, y: C } }'),
+    ("Display", '#[display("{a} {b:?} {c:x} {d:e} {e:p} {f:b} {g:o}")] struct S<A, B, C, D, E, F, G> { a: A, b: B, c: C, d: D, e: E, f: F, g: G }'),
+    ("Debug", 'struct S<A, B, C, D, E> { #[debug("{a:x}")] a: A, #[debug("{b} {c:?}")] b: B, c: C, #[debug(skip)] d: D, e: E }'),
+    ("Debug", '#[debug(bound(A: Clone, B: Copy, C: Default))] enum E<A, B, C, D> { #[debug("{_0:?}{_1}")] V(A, B), W { #[debug("{x:e}")] x: C, y: D }, U }'),
+    ("Display", '#[display(bound(A: Clone, D: Copy))] #[display("{_variant}/{_variant}")] enum E<A, B, C, D> { #[display("{_0}{_1}")] V(A, B), #[display("{_0:?}")] W(C), X(D) }'),
     ("Error", "struct E<A, B, C, D> { source: A, b: B, c: C, d: D }"),
     ("Error", "enum E<A, B, C, D, F> { V1 { source: A }, V2(#[error(source)] B, u8), V3(C), V4 { #[error(source)] x: D, y: F }, V5 }"),
     ("Error", "enum E<A, B, C> { V1 { source: Box<A> }, V2(#[error(source)] Vec<B>), V3(#[error(source)] Option<C>, A), V4(#[error(not(source))] B) }"),
